@@ -1,6 +1,6 @@
 """C03 — TTX XML is a lossless representation of a font."""
 import io, os, tempfile, shutil
-from lib.ser import Ok, Err, res, Raw, Opt
+from lib.ser import Ok, Err, res, Raw, Opt, exc_code
 from lib import corpus, genfonts
 from vcheck import Corr, Sweep
 
@@ -80,6 +80,7 @@ def correspondences(tier, rng):
         elif r_ == 2 and t_: t_ = t_.replace("1", rng.choice(["1", "x", "2"]), 1)       # any character but '0' counts as a one
         scases.append(t_)
     out.append(Corr("binary2num", scases, lambda t_: binary2num(t_), enc=lambda t_: ([ord(c) for c in t_],)))
+    out.extend(program_correspondences(tier, rng))
     return out
 
 # ------------------------------------------------------------------ sweeps
@@ -108,6 +109,145 @@ def instr_font():
     pg = Program(); pg.fromBytecode(b"\xb0\x07\x41\x00\x21\x40\x00\x4e")
     f["glyf"]["a"].program = pg
     b = io.BytesIO(); f.save(b); return b.getvalue()
+
+def program_correspondences(tier, rng):
+    """TrueType instruction programs: Program._disassemble (preserve=True, what toXML writes) and Program._assemble (what fromXML
+    runs) against the token-level model; the instruction tables are the regenerated ones"""
+    import re, sys
+    from fontTools.ttLib.tables import ttProgram
+    from fontTools.ttLib.tables.ttProgram import Program, tt_instructions_error
+    tools = os.path.join(os.path.dirname(os.path.dirname(os.path.dirname(os.path.abspath(__file__)))), "tools")
+    if tools not in sys.path: sys.path.insert(0, tools)
+    import translate_data as T
+    ins, stream = T.tt_instruction_tables()
+    index = {m: i for i, (_, m, _) in enumerate(ins)}
+    streamops = {op + i for op, _, ab in stream for i in range(1 << ab)}
+    PUSHK = {"PUSH": 2, "NPUSHB": 3, "NPUSHW": 4, "PUSHB": 5, "PUSHW": 6}; KNAME = {v: k for k, v in PUSHK.items()}
+    head = re.compile(r"([A-Z][A-Z0-9]*)\s*\[(.*?)\]")
+    def parse(asm):
+        toks = []; cur = None
+        for line in asm:
+            m = head.match(line)
+            if m:
+                mn, arg = m.group(1), m.group(2).strip()
+                if mn.startswith("INSTR"): toks.append((1, [int(mn[5:])])); cur = None
+                elif mn in PUSHK: cur = (PUSHK[mn], []); toks.append(cur)
+                else: toks.append((0, [index[mn], len(arg), int(arg, 2) if arg else 0])); cur = None
+            else:
+                cur[1].append(int(line))
+        return toks
+    def render(toks):
+        out = []
+        for tag, l in toks:
+            if tag == 0:
+                mn = ins[l[0]][1] if 0 <= l[0] < len(ins) else "ZZZ"
+                out.append("%s[%s]" % (mn, format(l[2], "0%db" % l[1]) if l[1] else " "))
+            elif tag == 1: out.append("INSTR%d[ ]" % l[0])
+            else: out.append("%s[ ] /* %d values pushed */" % (KNAME[tag], len(l))); out.extend(str(v) for v in l)
+        return out
+    def impl_dis(bs):
+        def go():
+            p = Program(); p.fromBytecode(bytes(bs)); return parse(p.getAssembly())
+        return res(go)
+    def oracle_dis(bs):
+        """the property on the implementation: what toXML writes for a program, fromXML turns back into the same bytecode"""
+        try:
+            p = Program(); p.fromBytecode(bytes(bs)); asm = p.getAssembly()
+        except Exception:
+            return None                                       # toXML falls back to a hex dump
+        q = Program(); q.fromAssembly(asm)
+        try: back = bytes(q.getBytecode())
+        except Exception as e: return "the disassembly of %s does not assemble: %r" % (bytes(bs).hex(), e)
+        return None if back == bytes(bs) else "program %s reads back as %s" % (bytes(bs).hex(), back.hex())
+    def impl_asm(toks):
+        def go():
+            p = Program(); p.fromAssembly(render(toks)); return list(p.getBytecode())
+        try: return Ok(go())
+        except tt_instructions_error: return Err(6)
+        except Exception as e: return Err(exc_code(e))
+    def oracle_asm(toks):
+        """every value of a push comes back, in order, and plain instructions come back as themselves"""
+        # an explicit push instruction written with NO values is not something the disassembler ever writes (a zero count makes it
+        # fall back to a hex dump); the assembler turns it into opcode-1 or a zero count — outside the round trip the property is about
+        if any(tag >= 3 and not l for tag, l in toks): return None
+        # likewise INSTRn is only ever written for opcodes outside both tables; n naming a push instruction is not a round-trip input
+        if any(tag == 1 and (l[0] in streamops or not (0 <= l[0] <= 255)) for tag, l in toks): return None
+        try:
+            p = Program(); p.fromAssembly(render(toks)); bc = bytes(p.getBytecode())
+        except Exception: return None
+        want = []
+        for tag, l in toks:
+            if tag >= 2: want += [("v", v) for v in l]
+            else: want.append((tag, tuple(l)))
+        try:
+            q = Program(); q.fromBytecode(bc); back = parse(q.getAssembly())
+        except Exception as e:
+            return "assembled program %s does not disassemble: %r" % (bc.hex(), e)
+        got = []
+        for tag, l in back:
+            if tag >= 2: got += [("v", v) for v in l]
+            else: got.append((tag, tuple(l)))
+        # INSTRn of a known opcode reads back under its mnemonic: compare opcodes there
+        def norm(x):
+            if x[0] == 0: return ("op", ins[x[1][0]][0] + x[1][2])
+            if x[0] == 1: return ("op", x[1][0])
+            return x
+        return None if [norm(x) for x in want] == [norm(x) for x in got] else "assembly %r reads back as %r" % (toks, back)
+    n = N(tier, 700, 12000)
+    VALS = [0, 1, 255, 256, -1, 127, 128, 32767, -32768, 32768, -32769, 300, 65535]
+    def rvals(kind):
+        ln = rng.choice([0, 1, 2, 3, 7, 8, 9, 10, 40]) if rng.chance(90) else rng.choice([254, 255, 256, 257])
+        if kind == "b": return [rng.randint(0, 255) if rng.chance(95) else rng.choice(VALS) for _ in range(ln)]
+        if kind == "w": return [rng.randint(-32768, 32767) if rng.chance(95) else rng.choice(VALS) for _ in range(ln)]
+        out_ = []
+        while len(out_) < ln:                       # auto PUSH: runs of bytes and words of boundary lengths
+            run = rng.choice([1, 1, 2, 3, 8, 9, 30]) if ln < 200 else rng.choice([1, 2, 100, 254, 255, 256])
+            byte = rng.chance(50)
+            out_ += [(rng.randint(0, 255) if byte else rng.choice([-1, 256, 1000, -300, 32767, -32768])) if rng.chance(97) else rng.choice(VALS) for _ in range(run)]
+        return out_[:ln]
+    def rtok():
+        k = rng.below(10)
+        if k < 4:
+            i = rng.below(len(ins)); ab = ins[i][2]
+            if rng.chance(4): return (0, [i if rng.chance(50) else len(ins) + 3, ab + 1, 0])
+            return (0, [i, ab, rng.below(1 << ab)])
+        if k == 4: return (1, [rng.choice([0x8F, 0x90, 0xA0, 0xFF, 0x28, 0x7B, 143, 255, 256, 300]) if rng.chance(80) else rng.randint(0, 255)])
+        if k == 5: return (2, rvals("a"))
+        if k == 6: return (3, rvals("b"))
+        if k == 7: return (4, rvals("w"))
+        if k == 8: return (5, rvals("b")[:rng.choice([1, 8, 8, 9, 3])])
+        return (6, rvals("w")[:rng.choice([1, 8, 8, 9, 3])])
+    acases = [[rtok() for _ in range(rng.randint(0, 6))] for _ in range(n)]
+    dcases = []
+    for toks in acases:
+        try:
+            p = Program(); p.fromAssembly(render(toks)); bc = list(p.getBytecode())
+        except Exception:
+            continue
+        dcases.append(bc)
+        if bc and rng.chance(30): dcases.append(bc[:rng.randint(0, len(bc))])
+        if bc and rng.chance(20):
+            m_ = list(bc); m_[rng.below(len(m_))] = rng.choice([0x40, 0x41, 0xB0, 0xB7, 0xB8, 0xBF, 0, rng.randint(0, 255)]); dcases.append(m_)
+    dcases += [[rng.randint(0, 255) for _ in range(rng.randint(0, 12))] for _ in range(n // 3)]
+    dcases += [[0x40, 0], [0x41, 0], [0x40], [0x41, 1, 5], [0xB0], [0xB8, 1], [0x40, 2, 1], [0xBF] + [0] * 15, [0xB7] + [9] * 8]
+    # programs of the corpus fonts
+    k = 0
+    for pth in corpus.binaries((".ttf",)):
+        if k >= (4 if tier == "quick" else 60) or os.path.getsize(pth) > 300000: continue
+        try:
+            from fontTools.ttLib import TTFont
+            f = TTFont(pth); progs = []
+            for t in ("fpgm", "prep"):
+                if t in f: progs.append(list(f[t].program.getBytecode()))
+            if "glyf" in f:
+                for gn in f.getGlyphOrder()[:60]:
+                    g = f["glyf"][gn]
+                    if hasattr(g, "program") and g.program: progs.append(list(g.program.getBytecode()))
+            progs = [p_ for p_ in progs if 0 < len(p_) < 3000]
+            if progs: k += 1; dcases += progs[:40]
+        except Exception:
+            continue
+    return [Corr("tt_disassemble", dcases, impl_dis, oracle=oracle_dis), Corr("tt_assemble", acases, impl_asm, oracle=oracle_asm)]
 
 def sweeps(tier, rng):
     from fontTools.ttLib import TTFont
